@@ -186,8 +186,12 @@ kw_names = st.sampled_from(['k', 'a', 'kw', 'key'])
 
 @st.composite
 def cases(draw):
-    kind = draw(st.sampled_from(['sub', 'sub', 'file']))
+    kind = draw(st.sampled_from(['sub', 'file', 'file']))
     a1 = tuple(draw(st.lists(valgen.raw_values(6, subclasses=False), max_size=3)))
+    if draw(st.sampled_from(range(4))) == 0:
+        # small dictionaries with null / colliding values: key sets of equal size that differ are frequent after one edit
+        small = st.dictionaries(st.sampled_from(['a', 'b', 'x', '1']), st.sampled_from([None, None, 0, 1, 'v', [], False]), min_size=1, max_size=3)
+        a1 = tuple(draw(st.lists(small, min_size=1, max_size=2)))
     k1 = draw(st.dictionaries(kw_names, valgen.raw_values(5, subclasses=False), max_size=2))
     both, _names = draw(valgen.edited([list(a1), k1], allow_tuples=True, allow_raw_keys=True, max_edits=3))
     if isinstance(both, (list, tuple)) and len(both) == 2 and isinstance(both[0], (list, tuple)) and isinstance(both[1], dict) \
